@@ -410,9 +410,9 @@ theorem genInv_fabric_write (n : Node) (f f' : Fabric) (hidx : f'.idx = f.idx) (
     cases b <;> exact this
 
 theorem sessOp_write_genInv (cfg : Cfg) (n : Node) (sid : Nat) (mode : Mode) (op : Op) (h : GenInv n)
-    (hop : (∃ s v, op = .acl s v) ∨ (∃ s v, op = .grp s v) ∨ (∃ s v, op = .label s v)) :
+    (hop : (∃ s v, op = .acl s v) ∨ (∃ s v, op = .grp s v) ∨ (∃ s v, op = .label s v) ∨ (∃ s, op = .fwrite s)) :
     GenInv (sessOp cfg n sid mode op).1 := by
-  rcases hop with ⟨s, v, rfl⟩ | ⟨s, v, rfl⟩ | ⟨s, v, rfl⟩
+  rcases hop with ⟨s, v, rfl⟩ | ⟨s, v, rfl⟩ | ⟨s, v, rfl⟩ | ⟨s, rfl⟩
   · simp only [sessOp]
     split
     · exact h
@@ -446,6 +446,14 @@ theorem sessOp_write_genInv (cfg : Cfg) (n : Node) (sid : Nat) (mode : Mode) (op
         | some f =>
           have hidx := getFabric_idx hg
           exact genInv_fabric_write n f { f with label := v } rfl rfl (by rw [hidx]; exact hg) h
+  · simp only [sessOp]
+    split
+    · exact h
+    · cases hg : getFabric n mode.fab with
+      | none => exact h
+      | some f =>
+        have hidx := getFabric_idx hg
+        exact genInv_fabric_write n f f rfl rfl (by rw [hidx]; exact hg) h
 
 theorem sessOp_simple_genInv (cfg : Cfg) (n : Node) (sid : Nat) (mode : Mode) (op : Op) (h : GenInv n)
     (hop : (∃ s, op = .openW s) ∨ (∃ s u, op = .csr s u) ∨ (∃ s c, op = .root s c) ∨
@@ -728,7 +736,8 @@ theorem sessOp_genInv (cfg : Cfg) (n : Node) (sid : Nat) (mode : Mode) (op : Op)
   | updnoc s node ser => exact sessOp_updnoc_genInv cfg n sid s node ser mode h
   | acl s v => exact sessOp_write_genInv cfg n sid mode _ h (Or.inl ⟨s, v, rfl⟩)
   | grp s v => exact sessOp_write_genInv cfg n sid mode _ h (Or.inr (Or.inl ⟨s, v, rfl⟩))
-  | label s v => exact sessOp_write_genInv cfg n sid mode _ h (Or.inr (Or.inr ⟨s, v, rfl⟩))
+  | label s v => exact sessOp_write_genInv cfg n sid mode _ h (Or.inr (Or.inr (Or.inl ⟨s, v, rfl⟩)))
+  | fwrite s => exact sessOp_write_genInv cfg n sid mode _ h (Or.inr (Or.inr (Or.inr ⟨s, rfl⟩)))
   | net s v => exact sessOp_simple_genInv cfg n sid mode _ h (Or.inr (Or.inr (Or.inr (Or.inl ⟨s, v, rfl⟩))))
   | rmnet s v => exact sessOp_simple_genInv cfg n sid mode _ h (Or.inr (Or.inr (Or.inr (Or.inr (Or.inl ⟨s, v, rfl⟩)))))
   | bcw s v => exact sessOp_simple_genInv cfg n sid mode _ h (Or.inr (Or.inr (Or.inr (Or.inr (Or.inr ⟨s, v, rfl⟩)))))
